@@ -18,7 +18,7 @@ def driver_query(exe, cmd='Q\n'):
     raise MachineryError('driver did not answer %r: rc=%s %s' % (cmd, r.returncode, r.stderr[-500:]))
 
 
-def run_histories(ctx, exe, scripts, timeout=900, max_restarts=20):
+def run_histories(ctx, exe, scripts, timeout=900, max_restarts=40):
     """scripts: list of lists of command lines; every script makes the driver print exactly one history line.
     A driver that dies in the middle of a history prints the partial history with an Abort event (u_adtB_hist.h) or
     nothing; either way the history gets an Abort event and the driver is restarted behind it."""
@@ -41,8 +41,8 @@ def run_histories(ctx, exe, scripts, timeout=900, max_restarts=20):
             break
         # died: the last printed line may be the aborted (partial) history
         restarts += 1
-        if restarts > max_restarts:
-            raise MachineryError('driver keeps dying: rc=%s stderr=%s' % (r.returncode, r.stderr[-1500:]))
+        if r.returncode not in (66, 67, -6, -11, 134, 139):
+            raise MachineryError('driver failed: rc=%s stderr=%s' % (r.returncode, r.stderr[-1500:]))
         if got and got[-1]['ev'] and got[-1]['ev'][-1].get('e') == 'Abort':
             got[-1]['ev'][-1]['stderr'] = r.stderr[-1200:]
             out += got
@@ -51,6 +51,11 @@ def run_histories(ctx, exe, scripts, timeout=900, max_restarts=20):
             out.append({'ev': [{'e': 'Abort', 'why': 'driver died rc=%s' % r.returncode, 'during': '?', 'stderr': r.stderr[-1200:]}]})
         pos = len(out)
         ctx.add('driver_aborts', 1)
+        if restarts >= max_restarts:
+            # the code under test aborts all the time: the aborts recorded so far are reported; the rest is not executed
+            ctx.notes.append('driver aborted %d times; %d histories not executed' % (restarts, len(scripts) - pos))
+            out += [{'ev': [{'e': 'Abort', 'why': 'not executed', 'during': '', 'stderr': ''}]} for _ in range(len(scripts) - pos)]
+            break
     if len(out) != len(scripts):
         raise MachineryError('driver produced %d of %d histories' % (len(out), len(scripts)))
     return out
